@@ -7,6 +7,7 @@ Driver for the C09 correspondence.  One request per line (strings as '.'-joined 
   `strop <lang> <ty> <tok>`                      → `ok <r> <0|1: a failure handler fired>` | `err <kind>`
   `stropx <lang> <prefix> <suffix> <encprefix> <kw|kw|…> <ty> <tok|tok|…>`   the same for every token under an
                                                   overridden configuration; answers joined by `;`
+  `stropold …`, `stropxold …`                    the same through `stropTraceBeforeFix` (the code as found)
   `handler <s>`                                  → `some <r>` | `none`          (C / C++ failure handler)
   `isspace <lang> <cp>`                          → `1` | `0`
   `encfilter <lang> <s>`                         → `_encoding_filter` on a matched span
@@ -79,13 +80,20 @@ def answer (line : String) : String :=
     match cfgOf lang, decodeS ty, decodeS tok with
     | some cfg, some ty, some tok => showResult (stropTrace cfg tok ty)
     | _, _, _ => "bad-op"
-  | ["stropx", lang, pre, suf, encp, kws, ty, toks] =>
+  | ["stropold", lang, ty, tok] =>
+    match cfgOf lang, decodeS ty, decodeS tok with
+    | some cfg, some ty, some tok => showResult (stropTraceBeforeFix cfg tok ty)
+    | _, _, _ => "bad-op"
+  | [op, lang, pre, suf, encp, kws, ty, toks] =>
+    if op ≠ "stropx" ∧ op ≠ "stropxold" then "bad-op" else
+    let old := op = "stropxold"
     match cfgOf lang, decodeS pre, decodeS suf, decodeS encp, decodeS ty, (splitOnChar toks '|').mapM decodeS with
     | some cfg, some pre, some suf, some encp, some ty, some toks =>
       match (if kws = "!" then some [] else (splitOnChar kws '|').mapM decodeS) with
       | some kws =>
         let cfg' := { cfg with stropPrefix := pre, stropSuffix := suf, encPrefix := encp, reserved := kws }
-        ";".intercalate (toks.map fun tok => showResult (stropTrace cfg' tok ty))
+        ";".intercalate (toks.map fun tok =>
+          showResult ((if old then stropTraceBeforeFix else stropTrace) cfg' tok ty))
       | none => "bad-op"
     | _, _, _, _, _, _ => "bad-op"
   | ["handler", s] =>
